@@ -47,6 +47,29 @@ theorem gaussian_thermal_poststate {K : Type} [CommRing K] (st : GS K) (hI : NMI
     toXP (initThermal st pop k) = addNoise (linMap (lossRows k 0) (toXP st)) k (1 + (pop + pop)) :=
   XP.eq_of_Eq (initThermal_refines st hI pop k)
 
+/-- **multi-mode Gaussian preparation** (`prepare_gaussian_state` → `fromscovmat`/`fromsmean`): on the
+listed modes, in the listed order, the quadrature covariance and means are exactly the given `(V, r)`;
+the prepared modes are uncorrelated with all others; all other modes keep their data -/
+theorem gaussian_prepare_poststate {K : Type} [CommRing K] (st : GS K) (quarter half : K)
+    (hq : quarter * (1 + 1 + 1 + 1) = 1) (hh : half * (1 + 1) = 1) (modes : List Nat) (hnd : modes.Nodup)
+    (A B C : Nat → Nat → K) (rx rp : Nat → K) (hA : ∀ a b, A a b = A b a) (hC : ∀ a b, C a b = C b a)
+    {a b : Nat} (ha : a < modes.length) (hb : b < modes.length) :
+    let st' := fromCov st quarter half modes A B C rx rp
+    Vxx st' modes[a] modes[b] = A a b ∧ Vxp st' modes[a] modes[b] = B a b ∧
+    Vpp st' modes[a] modes[b] = C a b ∧ meanX st' modes[a] = rx a ∧ meanP st' modes[a] = rp a :=
+  fromCov_poststate st quarter half hq hh modes hnd A B C rx rp hA hC ha hb
+
+theorem gaussian_prepare_uncorrelated {K : Type} [CommRing K] (st : GS K) (quarter half : K) (modes : List Nat)
+    (A B C : Nat → Nat → K) (rx rp : Nat → K) {i j : Nat} (hi : i ∈ modes) (hj : ¬ j ∈ modes) :
+    let st' := fromCov st quarter half modes A B C rx rp
+    st'.N i j = 0 ∧ st'.N j i = 0 ∧ st'.M i j = 0 ∧ st'.M j i = 0 :=
+  fromCov_uncorrelated st quarter half modes A B C rx rp hi hj
+
+theorem gaussian_prepare_local {K : Type} [CommRing K] (st : GS K) (quarter half : K) (modes : List Nat)
+    (A B C : Nat → Nat → K) (rx rp : Nat → K) :
+    AgreeOff modes (fromCov st quarter half modes A B C rx rp) st :=
+  fromCov_local st quarter half modes A B C rx rp
+
 /-- the defect repaired by the `fix:` commit 4b52a51: the old thermal loss touched spectators -/
 theorem thermal_loss_old_counterexample :
     ¬ AgreeOff [0] (thermalLossOld (vacuum 2 : GS Int) 1 1 0) (vacuum 2) := thermalLossOld_not_local
@@ -95,6 +118,8 @@ theorem bosonic_spectators {K : Type} [Semiring K] (n : Nat) (hn : 0 < n) (modes
   ⟨Bos.updateMeans_spectator n hn modes S μ hr hr', Bos.updateCovs_spectator n hn modes S Y V hr hs hr' hs'⟩
 
 /-! ### non-vacuity -/
+example : (1 / 4 : Rat) * (1 + 1 + 1 + 1) = 1 ∧ (1 / 2 : Rat) * (1 + 1) = 1 ∧ ([2, 0] : List Nat).Nodup := by
+  refine ⟨by norm_num, by norm_num, by decide⟩
 example : (4 : Nat) < 2 * 3 ∧ ¬ (4 / 2) ∈ [0, 1] := by decide
 example : ∀ op ∈ ([.bs 0 1 (3/5) (4/5) 3 1, .loss (1/2) 1] : List (GOp Rat)), ∀ x ∈ op.targets, x ∈ [1, 3] := by
   intro op h; simp at h; rcases h with rfl | rfl <;> simp [GOp.targets]
